@@ -1010,6 +1010,12 @@ var reModule = regexp.MustCompile(`(?m)^module\s+([^\n\r]+)\r?$`)
 
 type gomodCache map[string]struct{}
 
+// seen returns true if the directory containing file f was already looked up.
+func (g *gomodCache) seen(f string) bool {
+	_, ok := (*g)[path.Dir(f)]
+	return ok
+}
+
 // isGoModule returns the string to the directory containing a go.mod file, and
 // the go import path it represents, if found.
 func (g *gomodCache) isGoModule(parts []string) (string, string) {
@@ -1061,7 +1067,9 @@ func (s *Snapshot) findRoots() int {
 			// $GOPATH/src or go.mod dependency in $GOPATH/pkg/mod.
 			continue
 		}
-		if hasPrefix(f, s.LocalGomods) {
+		if hasPrefix(f, s.LocalGomods) && gmc.seen(f) {
+			// Under a known module and its directory was already examined, so
+			// there is no nested go.mod left to discover for this file.
 			continue
 		}
 
@@ -1103,6 +1111,10 @@ func (s *Snapshot) findRoots() int {
 				s.LocalGomods[root] = path
 				continue
 			}
+		}
+		if hasPrefix(f, s.LocalGomods) {
+			// No go.mod below the module root already found.
+			continue
 		}
 		if isFile(f) {
 			// Assumes "go run" was used, thus is package main. Still consider it a
